@@ -3,7 +3,10 @@ Tie: Gen/FwSchedConst.v (TDMASCHED_NUM_FRAMES / NUM_CB, array sizes and field wi
 + correspondence of the extracted model with the real layer1/tdma_sched.c (host build, ASan/UBSan, logging callbacks)
 on generated operation histories; implementation-level oracle = a direct Python statement of the property
 (an item scheduled N < 25 frames ahead is due exactly N advances later, runs once, ascending priority, nothing else runs,
-a full frame answers -1 and keeps what it holds)."""
+a full frame answers -1 and keeps what it holds).
+Re-entrant part: callbacks 15 (SPAWN) / 16 (RSPAWN) of the harness call the real tdma_schedule() / tdma_sched_reset() from inside
+the real tdma_sched_execute(); the model side is tdma_sched_execute_sp (wire function w_c08_runsp), the old wire function
+w_c08_run is still compared on every history without such callbacks (harness mode v1)."""
 import os
 import subprocess
 
@@ -13,6 +16,8 @@ from ..common import REPO, LIBOSMO, ROOT
 DEPTH = 25     # literal protocol numbers of the property statement (the oracle does not read them from the source)
 CAP = 8
 NCBK = 15
+CB_SPAWN = 15
+CB_RSPAWN = 16
 SRC = "src/target/firmware/layer1/tdma_sched.c"
 
 
@@ -101,8 +106,23 @@ class G:
         p3 = r.choice([0, 65535, 65536 + 7, -1]) if (wild and r.chance(1, 8)) else (self.serial if r.chance(1, 2) else r.below(65536))
         return (self.cb(wild), p1, p2, p3, self.prio())
 
+    def spawner(self, child_off=None, wild=False):
+        """an item whose callback schedules a child child_off frames ahead while execute runs (p2 = offset, p1 -> child cb / prio)"""
+        r = self.r
+        self.serial += 1
+        if child_off is None:
+            k = r.below(10)
+            child_off = 0 if k < 4 else r.choice([1, 24, 24, 23, 2]) if k < 6 else r.below(DEPTH)
+            if wild and r.chance(1, 10):
+                child_off = r.choice([25, 26, 50, 255])
+        p1 = r.choice([127, 128, 129]) if r.chance(1, 2) else r.below(256)      # child prio p1 - 128: -1 / 0 / 1 or anything
+        p3 = self.serial if r.chance(1, 2) else r.below(65536)
+        return (CB_RSPAWN if r.chance(1, 6) else CB_SPAWN, p1, child_off, p3, self.prio())
+
     def sched(self, off=None, wild=False):
         it = self.item(wild)
+        if self.mode.startswith("spawn") and self.r.chance(1, 3):
+            it = self.spawner(wild=wild)
         return ("s", self.off(wild) if off is None else off) + it
 
     def sset(self, wild=False):
@@ -111,7 +131,7 @@ class G:
         items = []
         for f in range(nfr):
             for _ in range(r.choice([0, 1, 1, 2, 2, 3, 9 if wild else 2])):
-                items.append(self.item(False))
+                items.append(self.spawner() if (self.mode.startswith("spawn") and r.chance(1, 5)) else self.item(False))
             if f < nfr - 1 or r.chance(1, 3):
                 items.append((0, 0, 0, 0, 0))
         if not (wild and r.chance(1, 6)):
@@ -128,14 +148,15 @@ class G:
 
 def gen_case(rng, k):
     r = rng
-    modes = ["mix", "mix", "firmware", "firmware", "fill", "ties", "wild", "walk", "sets"]
+    modes = ["mix", "mix", "firmware", "firmware", "fill", "ties", "wild", "walk", "sets",
+             "spawn", "spawn", "spawnfw", "spawnfw", "spawnfill", "spawnwild", "spawnchain"]
     mode = modes[k % len(modes)]
     g = G(r, mode)
     cur = r.below(DEPTH) if k % 5 else (k // 5) % DEPTH          # every ring position is a start position
     ops = []
     n = r.choice([4, 10, 25, 40, 80, 130])
-    wild = mode == "wild"
-    if mode in ("mix", "wild", "ties", "sets"):
+    wild = mode in ("wild", "spawnwild")
+    if mode in ("mix", "wild", "ties", "sets", "spawn", "spawnwild"):
         for _ in range(n):
             x = r.below(100)
             if x < (30 if mode == "sets" else 48):
@@ -148,7 +169,7 @@ def gen_case(rng, k):
                 ops.append(("x",))
             else:
                 ops.append(("r",))
-    elif mode == "firmware":          # the L1S frame interrupt: execute, (callbacks would schedule), advance
+    elif mode in ("firmware", "spawnfw"):   # the L1S frame interrupt: execute (callbacks schedule), advance
         for _ in range(n):
             ops.append(("x",))
             for _ in range(r.choice([0, 0, 1, 1, 2, 3])):
@@ -156,6 +177,35 @@ def gen_case(rng, k):
             if r.chance(1, 40):
                 ops.append(("r",))
             ops.append(("a",))
+    elif mode == "spawnchain":        # spawners whose children land in frames that hold further spawners; every frame executed
+        for _ in range(r.choice([3, 8, 20])):
+            ops.append(("s", g.off()) + g.spawner())
+            if r.chance(1, 3):
+                ops.append(g.sched())
+        for _ in range(2 * DEPTH + r.below(5)):
+            ops.append(("x",))
+            if r.chance(1, 5):
+                ops.append(("s", r.choice([0, 0, 1, 24])) + g.spawner())
+            ops.append(("a",))
+    elif mode == "spawnfill":         # spawners aim at frames that are full or one below full (their own frame included)
+        o1 = g.off()
+        tgt = r.choice([0, 0, 1, 24, r.below(DEPTH)])
+        fill1 = r.choice([5, 6, 7, 7, 8])
+        nsp = r.choice([1, 1, 2, 3])
+        for _ in range(max(0, fill1 - nsp)):
+            ops.append(g.sched(off=o1))
+        for _ in range(nsp):
+            ops.insert(r.below(len(ops) + 1), ("s", o1) + g.spawner(child_off=tgt))
+        if tgt != 0:
+            for _ in range(r.choice([6, 7, 7, 8, 8])):
+                ops.append(g.sched(off=(o1 + tgt) % DEPTH))
+        for _ in range(o1):
+            ops.append(("a",))
+        ops.append(("x",))
+        for _ in range(DEPTH + 1):
+            if r.chance(1, 8):
+                ops.append(g.sched())
+            ops += [("a",), ("x",)]
     elif mode == "fill":              # full buckets, capacity boundary
         offs = [g.off() for _ in range(r.choice([1, 2, 3]))]
         for _ in range(n):
@@ -193,6 +243,32 @@ def grid_cases():
                 ops += [("x",), ("a",)]
             out.append((cur, ops))
     return out
+
+
+def spawn_grid_cases():
+    """every ring position x every child offset: a spawner M frames ahead (M from the position), other items around it with lower,
+    equal and higher priority, every frame executed; the child must run exactly N advances after its parent ran"""
+    out = []
+    for cur in range(DEPTH):
+        for n in range(DEPTH):
+            m = (3 * cur + n) % 5
+            kind = CB_RSPAWN if (cur + n) % 7 == 0 else CB_SPAWN
+            ops = [("s", m, 4, 1, 1, 1, -3), ("s", m, kind, 120 + (cur + n) % 16, n, 2000 + cur * DEPTH + n, 0), ("s", m, 5, 2, 2, 2, 3)]
+            if n:
+                ops.append(("s", (m + n) % DEPTH, 6, 3, 3, 3, (cur % 3) - 1))
+            for _ in range(DEPTH + 6):
+                ops += [("x",), ("a",)]
+            out.append((cur, ops))
+    return out
+
+
+def has_spawn(case):
+    for o in case[1]:
+        if o[0] == "s" and o[2] >= NCBK:
+            return True
+        if o[0] == "S" and any(it[0] >= NCBK for it in o[3]):
+            return True
+    return False
 
 
 def sort_cases(vals, maxn):
@@ -329,24 +405,84 @@ def oracle(ctx, case, impl):
                 fail("advance does not move to the next ring position", "c08-advance", (ref.cur0 + ref.now) % DEPTH, c)
                 return None
         elif o[0] == "x":
-            due = ref.due_now()
+            due = ref.due_now()                       # the items of this frame at entry
             rc, nlog = take(2)
-            log = [tuple(take(4)) for _ in range(nlog)]
-            if rc != len(due):
-                fail("execute ran %d items, %d are due in this frame" % (rc, len(due)), "c08-exec-count", len(due), rc)
+            raw = [tuple(take(4)) for _ in range(nlog)]
+            # what the callbacks did with the scheduler while execute ran: every call of 15 / 16 is followed by its markers
+            calls = []
+            children = []                             # accepted same-frame children, in the order they were scheduled
+            j = 0
+            while j < len(raw):
+                e = raw[j]
+                j += 1
+                if e[0] < 0:
+                    fail("scheduler-use marker without a spawning callback in front of it", "c08-spawn-marker", None, raw)
+                    return None
+                calls.append(e)
+                if e[0] not in (CB_SPAWN, CB_RSPAWN):
+                    continue
+                _, sp1, sp2, sp3 = e
+                if e[0] == CB_RSPAWN:
+                    if j >= len(raw) or raw[j][0] != -3:
+                        fail("callback 16 did not report its reset", "c08-spawn-marker", None, raw)
+                        return None
+                    ref.pend = ref.due_now()          # reset from inside a callback: only this frame survives (items already run included)
+                    feats.add("cb-reset")
+                    if raw[j][1] != len(ref.pend):
+                        fail("reset from a callback keeps %d items, only the %d of the running frame may stay" % (raw[j][1], len(ref.pend)),
+                             "c08-cb-reset", len(ref.pend), raw[j][1])
+                        return None
+                    j += 1
+                if j >= len(raw) or raw[j][0] != -2:
+                    fail("spawning callback did not report its tdma_schedule", "c08-spawn-marker", None, raw)
+                    return None
+                _, off, ccb, crc = raw[j]
+                j += 1
+                if off != sp2 or ccb != 2 + sp1 % 8:
+                    fail("spawning callback scheduled something else than its parameters say", "c08-spawn-marker", (sp2, 2 + sp1 % 8), (off, ccb))
+                    return None
+                if not (0 <= off < DEPTH):
+                    return ("out-of-domain", tuple(sorted(feats)))
+                room = len(ref.due_now(off)) < CAP
+                if (ref.cur0 + ref.now) % DEPTH + off >= DEPTH:
+                    feats.add("child-wraps")
+                if not room:
+                    feats.add("child-refused0" if off == 0 else "child-refused")
+                    if crc != -1:
+                        fail("callback scheduling into a full frame (%d ahead) is not refused" % off, "c08-child-overflow-not-reported", -1, crc)
+                        return None
+                else:
+                    if crc != 0:
+                        fail("callback scheduling into a frame with room (%d ahead) failed" % off, "c08-child-schedule-rc", 0, crc)
+                        return None
+                    child = [(ref.now + off) % DEPTH, (ccb, sp1, sp2, sp3), s16(sp1 - 128)]
+                    ref.pend.append(child)
+                    if off == 0:
+                        children.append(child)
+                        feats.add("child-same-frame")
+                    else:
+                        feats.add("child-24" if off == 24 else "child-ahead")
+            if len(children) >= 2:
+                feats.add("children-multi")
+            if rc != len(due) + len(children):
+                fail("execute ran %d items, %d are due in this frame (%d at entry + %d scheduled for this frame by its callbacks)"
+                     % (rc, len(due) + len(children), len(due), len(children)), "c08-exec-count", len(due) + len(children), rc)
                 return None
-            # ascending priority: the log must be the concatenation of the equal-priority groups in ascending order
+            # ascending priority: the calls of the entry items must be the concatenation of the equal-priority groups in ascending order
             i = 0
             for p in sorted(set(e[2] for e in due)):
                 grp = sorted(e[1] for e in due if e[2] == p and e[1][0] != 1)
-                got = sorted(log[i:i + len(grp)])
+                got = sorted(calls[i:i + len(grp)])
                 if grp != got:
                     fail("execute did not run exactly the due items in ascending priority", "c08-exec-order",
-                         [(e[1], e[2]) for e in sorted(due, key=lambda e: e[2])], log)
+                         [(e[1], e[2]) for e in sorted(due, key=lambda e: e[2])], calls)
                     return None
                 i += len(grp)
-            if i != len(log):
-                fail("execute ran something that was not due", "c08-exec-extra", None, log)
+            # then every item a callback scheduled for THIS frame: once, in scheduling order, with its parameters
+            want_ch = [c[1] for c in children]
+            if calls[i:] != want_ch:
+                fail("items scheduled 0 frames ahead by callbacks of this frame must run once, after the entry items, in scheduling order",
+                     "c08-exec-extra" if len(calls[i:]) > len(want_ch) else "c08-child-not-run", want_ch, calls[i:])
                 return None
             prs = [e[2] for e in due]
             if len(due) >= 2:
@@ -357,7 +493,7 @@ def oracle(ctx, case, impl):
                 feats.add("exec1")
             else:
                 feats.add("exec0")
-            if len(due) == CAP:
+            if len(due) + len(children) == CAP:
                 feats.add("exec-full")
             ref.pend = [e for e in ref.pend if (e[0] - ref.now) % DEPTH != 0]
         elif o[0] == "r":
@@ -384,12 +520,12 @@ def oracle(ctx, case, impl):
 
 # ------------------------------------------------------------------ run
 
-def run_harness(ctx, binp, lines):
+def run_harness(ctx, binp, lines, mode=()):
     """runs all lines; a crash / sanitizer report is bisected to the line in flight and reported, the rest continues"""
     res = []
     start = 0
     while start < len(lines):
-        p = subprocess.run([binp], input="\n".join(lines[start:]) + "\n", stdout=subprocess.PIPE, stderr=subprocess.PIPE,
+        p = subprocess.run([binp] + list(mode), input="\n".join(lines[start:]) + "\n", stdout=subprocess.PIPE, stderr=subprocess.PIPE,
                            text=True, timeout=900)
         outs = p.stdout.split("\n")
         if outs and outs[-1] == "":
@@ -427,14 +563,23 @@ def run(ctx):
                     v = [int(x) for x in l.split()]
                     cases.append((v[0], [("corpus", v[1:])]))
     cases += grid_cases()
+    cases += spawn_grid_cases()
     cases += sort_cases([0, 1, 2], 6) if ctx.tier == "quick" else sort_cases([-1, 0, 1, 32767], 8)
-    ctx.count("grid+sort-sweep cases", len(cases) - ngen)
+    ctx.count("grid+spawn-grid+sort-sweep cases", len(cases) - ngen)
     lines = [" ".join(map(str, flat(c))) for c in cases]
     outs = run_harness(ctx, binp, lines)
     impl = [[int(x) for x in o.split()] for o in outs]
     idx = list(range(len(cases)))
-    ctx.correspond("tdma-sched-histories", "TdmaSched", idx, lambda k: "w_c08_run " + lines[k], lambda k: impl[k],
+    # the re-entrant model (callback ids 0..16) on every history
+    ctx.correspond("tdma-sched-spawn-histories", "TdmaSched", idx, lambda k: "w_c08_runsp " + lines[k], lambda k: impl[k],
                    show=lambda k: dict(line=lines[k]))
+    # the model without scheduler-using callbacks (callback ids 0..14) on every history that has none (harness mode v1 rejects 15 / 16)
+    idx1 = [k for k in idx if not has_spawn(cases[k])]
+    outs1 = run_harness(ctx, binp, [lines[k] for k in idx1], mode=("v1",))
+    impl1 = dict((k, [int(x) for x in o.split()]) for k, o in zip(idx1, outs1))
+    ctx.correspond("tdma-sched-histories", "TdmaSched", idx1, lambda k: "w_c08_run " + lines[k], lambda k: impl1[k],
+                   show=lambda k: dict(line=lines[k]))
+    ctx.count("histories with scheduler-using callbacks", len(idx) - len(idx1))
     nops = 0
     for k, c in enumerate(cases):
         nops += len(c[1])
@@ -461,8 +606,10 @@ def run(ctx):
     ctx.count("operations", nops)
     for k in range(0, len(cases), max(1, len(cases) // 5)):
         ctx.sample(dict(line=lines[k][:300], impl=impl[k][:60]))
-    ctx.extra["rule"] = ("histories of 4..130 operations in 9 modes (mixed, firmware frame loop, bucket filling, equal priorities, wild offsets/"
-                         "callbacks/unterminated sets, full ring walk, sets), every start position of the ring, offsets biased to 0/24, "
+    ctx.extra["rule"] = ("histories of 4..130 operations in 16 modes (mixed, firmware frame loop, bucket filling, equal priorities, wild offsets/"
+                         "callbacks/unterminated sets, full ring walk, sets; 7 modes with callbacks that call tdma_schedule / tdma_sched_reset from inside "
+                         "tdma_sched_execute: same-frame, 1..24 ahead, into full and nearly full frames, chains, with failing callbacks and resets), "
+                         "every start position of the ring, offsets biased to 0/24, the 25x25 grid ring position x child offset, "
                          "priorities from {0}, {-1,0,1}, int16 edges or uniform; plus a malformed int stream, the 25x25 grid (ring position x offset, every frame "
                          "executed) and every priority pattern over 3 values for buckets of 1..6 items (thorough: 4 values, 1..8 items). distinct_nontrivial = distinct "
                          "(domain, feature set reached: overflow/full/wrap/ties/reordered/reset/set shapes, start position class) keys")
